@@ -481,6 +481,36 @@ Section LocksP.
     apply atomic_linearizable.
   Qed.
 
+  (* ---- the linearization point lies INSIDE the critical section: whenever a commit on shard j executes
+     (after any prefix of any schedule), the committing thread holds shard j's lock at that instant - the
+     write lock if the commit writes - and the lock table shows it.  Hence a step that was released before
+     another was acquired is committed before it: the commit order is consistent with real time. *)
+  Theorem commit_inside_section atomic (ss : list S) (progs : list (list (mact S R))) s1 i' :
+    Forall (λ p, held_after None p = Some None) progs →
+    let m := run (msem atomic) s1 (msh_init ss, map mthread_of progs) in
+    ∀ i j w f sh, (mstep (msem atomic) i' m).2 = Some (i, MCommit j w f, sh) →
+      ∃ t w' l, m.2 !! i = Some t ∧ held (loc t) = Some (j, w', true) ∧ (w = true → w' = true) ∧
+                locks m.1 !! j = Some l ∧ (if w' then lwriter l = true else (1 ≤ lreaders l)%nat).
+  Proof.
+    intros Hp m i j w f sh Hev.
+    pose proof (minv_run atomic s1 _ (minv_init ss progs Hp)) as Hm. fold m in Hm.
+    destruct (mstep_cases (msem atomic) i' m) as [E|(t & a & rest & sh' & lo' & more & Ht & Htd & Hsem & E)];
+      rewrite E in Hev; [done|].
+    cbn [snd] in Hev. injection Hev as -> -> _.
+    pose proof (mi_wl _ Hm i t Ht) as Hwl. unfold well_locked in Hwl. rewrite Htd in Hwl. apply wl_head in Hwl.
+    destruct Hwl as (w' & Hh & Hww & _).
+    pose proof (mi_range _ Hm i t j w' true Ht Hh) as Hr.
+    destruct (lookup_lt_is_Some_2 (locks m.1) j Hr) as [l Hl].
+    exists t, w', l. split; [done|]. split; [done|]. split; [done|]. split; [done|].
+    destruct (mi_locks _ Hm j l Hl) as (HW & HR & _).
+    assert (holds j w' t = true) as Hholds by (apply holds_true; by exists true).
+    destruct w'.
+    - pose proof (swith_one (λ t, if holds j true t then 1 else 0)%nat m.2 i t Ht) as H1. cbn beta in H1.
+      rewrite Hholds in H1. unfold holders in HW. destruct (lwriter l); [done|lia].
+    - pose proof (swith_one (λ t, if holds j false t then 1 else 0)%nat m.2 i t Ht) as H1. cbn beta in H1.
+      rewrite Hholds in H1. unfold holders in HR. lia.
+  Qed.
+
   (* ---- a per-shard predicate kept by every step function holds for every shard, always *)
   Section Pred.
     Variable P : S → Prop.
